@@ -83,6 +83,9 @@ func runSentence(c GCase, o sentenceOpts) *sentenceResult {
 	gd.MaxEvents, gd.MaxCalls = 100000, 150000
 	res.Guard = gd
 	h := &gram.Hooks{Inside: gd.Inside, Outside: gd.Outside, NoMemo: o.NoMemo, Interp: concatInterp()}
+	if !o.NoMemo {
+		h.MemoExpr = c.MemoExpr
+	}
 	if o.Named {
 		h.NameOf = func(e *gram.Expr) string {
 			switch e.Op {
